@@ -108,15 +108,7 @@ Example C09_lifecycle_example :
   (let s5 := fst (fst (bstep pre (al, NewEpoch 5))) in
    fst (fst (bstep s5 (al, NewEpoch 6))) = s5).
 Proof.
-  split.
-  { intros k Hk. unfold due in Hk |- *.
-    destruct (decide (k = exL1)) as [->|H1]; [vm_compute; reflexivity|].
-    destruct (decide (k = exL2)) as [->|H2]; [vm_compute; reflexivity|].
-    exfalso. assert (Hp : is_Some (accts pre !! k)) by (eapply due_present; exact Hk).
-    assert (Hin : k ∈ skeys (accts pre)) by (apply elem_of_skeys; exact Hp).
-    assert (Hs : skeys (accts pre) = [exA; exB; exL1; exL2]) by (vm_compute; reflexivity).
-    rewrite Hs in Hin. repeat (apply elem_of_cons in Hin as [->|Hin]); try congruence;
-      try (vm_compute in Hk; discriminate). inversion Hin. }
+  split; [apply nochainb_sound; vm_compute; reflexivity|].
   vm_compute. auto.
 Qed.
 
@@ -134,7 +126,8 @@ Proof.
   split; [exact Hl|].
   intros c e s' r ns H.
   assert (Hd : due e (accts s) exL1 = false).
-  { unfold due. rewrite (get_acc_some _ _ _ Hl). simpl. rewrite andb_false_r. reflexivity. }
+  { unfold due. rewrite (get_acc_some _ _ _ Hl). cbn [until]. replace (0 =? 0) with true by reflexivity. cbn [negb]. rewrite andb_false_r. reflexivity. }
   destruct (C09_early_tick_inert _ _ _ _ _ _ exL1 H Hd) as (H1 & H2 & H3).
-  unfold balance_of in H3. rewrite (get_acc_some _ _ _ Hl) in *. simpl in *. auto.
+  unfold balance_of in H3 |- *. rewrite (get_acc_some _ _ _ Hl) in H1, H2, H3.
+  cbn [bal until parent] in H1, H2, H3. auto.
 Qed.
